@@ -573,29 +573,40 @@ func (c *Ctx) c07Mem(sm *storeModel) {
 }
 
 // inWriteLockedClosure: fn is a closure whose every creation site passes it to withMailbox
-// with a constant true writeLock argument.
+// with a constant true writeLock argument, or a function that is only ever reached from such
+// closures (a helper a refactoring extracted).
 func (c *Ctx) inWriteLockedClosure(fn *ssa.Function, withMailbox *ssa.Function) bool {
-	par := fn.Parent()
-	if par == nil {
-		return false
+	modes := c.withMailboxClosures(withMailbox)
+	return lockModeOf(c.P, fn, modes, 0) == "w"
+}
+
+// lockModeOf: "w" if every way into fn runs under the mailbox write lock, "r" if under some
+// mailbox lock, "" otherwise.
+func lockModeOf(p *eng.Prog, fn *ssa.Function, modes map[*ssa.Function]string, depth int) string {
+	if m, ok := modes[fn]; ok {
+		if m == "?" {
+			return ""
+		}
+		return m
 	}
-	found, okAll := false, true
-	eng.EachInstr(par, func(in ssa.Instruction) {
-		call, ok := in.(*ssa.Call)
-		if !ok || eng.StaticCallee(call.Common()) != withMailbox {
-			return
+	if depth > 6 {
+		return ""
+	}
+	cs := p.LogicalCallers(fn)
+	if len(cs) == 0 {
+		return ""
+	}
+	res := "w"
+	for _, c := range cs {
+		switch lockModeOf(p, c, modes, depth+1) {
+		case "w":
+		case "r":
+			res = "r"
+		default:
+			return ""
 		}
-		args := call.Call.Args
-		mc, ok := args[len(args)-1].(*ssa.MakeClosure)
-		if !ok || mc.Fn != ssa.Value(fn) {
-			return
-		}
-		found = true
-		if b, isC := eng.ConstBool(args[len(args)-2]); !isC || !b {
-			okAll = false
-		}
-	})
-	return found && okAll
+	}
+	return res
 }
 
 func (c *Ctx) c07File(sm *storeModel) {
